@@ -144,6 +144,13 @@ class Run:
         cmd = ["lake", "build"] + list(targets)
         self.checker_cmds.append("cd lean && " + " ".join(cmd))
         rc, out, err = sh(cmd, cwd=LEAN, timeout=3000)
+        for _ in range(3):
+            # another check running in the same tree (workers, run_all next to a worker) may be rebuilding the shared
+            # MJ.Gen.Tables at this moment: its object files vanish for a moment.  Not an error of the proofs: retry.
+            if rc == 0 or not re.search(r"object file .* does not exist|failed to open|No such file or directory|SIGBUS|signal 7", out + err):
+                break
+            time.sleep(20)
+            rc, out, err = sh(cmd, cwd=LEAN, timeout=3000)
         if rc != 0:
             tail = "\n".join((out + err).strip().splitlines()[-40:])
             self.log("lake build FAILED:\n" + tail)
@@ -172,6 +179,12 @@ class Run:
         cmd = ["lake", "env", "lean", audit_file]
         self.checker_cmds.append("cd lean && " + " ".join(cmd))
         rc, out, err = sh(cmd, cwd=LEAN, timeout=3000)
+        for _ in range(3):   # same transient as in lean_build: a concurrent rebuild of the shared MJ.Gen.Tables
+            if rc == 0 or not re.search(r"object file .* does not exist|failed to open|No such file or directory", out + err):
+                break
+            time.sleep(20)
+            self.lean_build([prop_module])
+            rc, out, err = sh(cmd, cwd=LEAN, timeout=3000)
         if rc != 0:
             self.broken.append("axiom audit failed to elaborate: " + (out + err).strip()[-400:])
             return False
